@@ -38,7 +38,8 @@ def gen_schema(rng, force_kind=None):
         elif kind == 'm2o':
             r = {'kind': kind, 'sym': False,
                  'a': {'ent': ea, 'coll': False, 'req': rng.random() < 0.4, 'opt_casc': None},
-                 'b': {'ent': eb, 'coll': True, 'req': False, 'opt_casc': rng.choice([None, None, None, True, False])}}
+                 'b': {'ent': eb, 'coll': True, 'req': False, 'opt_casc': rng.choice([None, None, None, True, False])},
+                 'ckey': rng.random() < 0.3}      # composite_key(reference, tag) on the entity of the reference
             if rng.random() < 0.5: r['a'], r['b'] = r['b'], r['a']     # collection side may come first in declaration order
         elif kind == 'm2m':
             r = {'kind': kind, 'sym': False,
@@ -75,6 +76,13 @@ class World:
                 dicts[d['ent']][name] = attr
                 self.attrs[(i, sn == 'b')] = attr
                 self.names[(i, sn == 'b')] = name
+        for e in range(nent):
+            dicts[e]['tag'] = Required(int)
+        for i, r in enumerate(schema['rels']):                 # what `composite_key(ref, tag)` in the class body does
+            if r.get('ckey'):
+                sn = 'b' if r['a']['coll'] else 'a'
+                d = dicts[r[sn]['ent']]
+                d.setdefault('_indexes_', []).append(core.Index(d['r%d%s' % (i, sn)], d['tag'], is_pk=False, is_unique=True))
         self.classes = [type('E%d' % e, (db.Entity,), dicts[e]) for e in range(nent)]
         db.bind('sqlite', ':memory:')
         db.generate_mapping(create_tables=True)
@@ -122,6 +130,7 @@ class World:
                 for key, v in op['vals']:
                     key = tuple(key)
                     kw[self.names[key]] = [self.objs[i] for i in v['coll']] if 'coll' in v else (None if v['ref'] is None else self.objs[v['ref']])
+                kw['tag'] = op.get('tag', 0)
                 o = self.classes[op['e']](**kw)
                 self.objs.append(o)
                 return None
@@ -236,7 +245,7 @@ def gen_op(rng, w, allow_bad=True):
                     v, t = pick_value(key, bad and rng.random() < 0.3); tag = tag or t
                     if v is not None or rng.random() < 0.5: vals.append([list(key), {'ref': v}])
                 elif rng.random() < 0.2: vals.append([list(key), {'ref': None}])
-        return {'k': 'create', 'e': e, 'vals': vals}, tag
+        return {'k': 'create', 'e': e, 'vals': vals, 'tag': rng.choice([0, 0, 1])}, tag
     live_have = [i for i in have if snap_alive[i]]
     pool = have if (bad and rng.random() < 0.4) else (live_have or have)
     o = rng.choice(pool)
@@ -268,7 +277,7 @@ def gen_op(rng, w, allow_bad=True):
 
 
 def model_op(op):
-    m = {k: v for k, v in op.items() if k != 'via'}
+    m = {k: v for k, v in op.items() if k not in ('via', 'tag')}
     return m
 
 
@@ -278,13 +287,25 @@ def norm_dump(objs):
              'colls': [[r, bool(s), sorted(l)] for r, s, l in o['colls']]} for o in objs]
 
 
-def classify(w, op, err, p, key, q):
+MODEL_ERRS = {'OperationWithDeletedObjectError', 'ValueError', 'TypeError', 'ConstraintError', 'AssertionError', 'RecursionError'}
+
+
+def classify(w, op, err, p, key, q, prev):
+    """canonical id of the kind of disagreement (root cause where it is recognisable, else call/outcome/relationship/which end)"""
+    rel = w.schema['rels'][key[0]]
+    if rel['kind'] == 'sym1' and prev is not None:
+        if any(i in held(so, key) for i, so in enumerate(prev) if so['alive']):
+            return 'symmetric-one-to-one-self-link'
+    if op['k'] == 'setRef' and err is None and rel['kind'] == 'o2o' and op['a'][0] == key[0] and op.get('v') is not None and prev is not None:
+        okey = (op['a'][0], bool(op['a'][1]))
+        if w.side(okey)['casc'] and held(prev[op['o']], okey):
+            return 'one-to-one-cascade-reassign'
     o = op.get('o', None)
     where = 'target-lost' if q == o else ('target-kept' if p == o else 'other')
     return '%s/%s/%s/%s' % (op['k'], err or 'ok', w.relkind(key), where)
 
 
-def run_history(schema, ops, with_oracle=True):
+def run_history(schema, ops):
     """replays a fixed history on fresh real classes; returns (world, [(err, snapshot)])"""
     w = World(schema)
     res = []
@@ -297,8 +318,8 @@ def run_history(schema, ops, with_oracle=True):
     return w, res
 
 
-def first_violation(schema, ops, operands_alive_only=False):
-    """(index, description) of the first call after which the two ends disagree on the real objects, or None"""
+def first_violation(schema, ops):
+    """(index, key, detail) of the first call after which the two ends disagree on the real objects, or None"""
     try:
         w, res = run_history(schema, ops)
     except Exception:
@@ -307,12 +328,12 @@ def first_violation(schema, ops, operands_alive_only=False):
         bad = ends_disagree(w, snap)
         if bad:
             p, key, q, why = bad[0]
-            return i, classify(w, ops[i], err, p, key, q), {'p': p, 'attr': list(key), 'q': q, 'why': why, 'outcome': err or 'ok'}
+            return i, classify(w, ops[i], err, p, key, q, res[i - 1][1] if i else []), {'p': p, 'attr': list(key), 'q': q, 'why': why, 'outcome': err or 'ok'}
     return None
 
 
 def shrink(schema, ops, key0):
-    """greedy: drop calls (keeping object numbering by only dropping non-create calls and the tail) while the same kind of violation remains"""
+    """greedy: drop calls (object numbering is kept by never dropping a create) while the same kind of violation remains at the last call"""
     v = first_violation(schema, ops)
     if v is None: return ops
     ops = ops[:v[0] + 1]
@@ -337,8 +358,17 @@ def report_violation(ctx, schema, ops, i, key, detail):
                   expected='q holds p under attr.reverse whenever live p holds q under attr', key='ends-disagree:' + key)
 
 
+def count_mismatch(w):
+    """observation for C10 (not part of C12): SetData.count differs from the number of items of a fully loaded collection"""
+    for o in w.objs:
+        if o._vals_ is None or not w.alive(o): continue
+        for v in o._vals_.values():
+            if isinstance(v, core.SetData) and v.is_fully_loaded and v.count is not None and v.count != len(v): return True
+    return False
+
+
 def memory_phase(ctx, rng, nhist, nops):
-    """phase 1: all objects created in the session"""
+    """phase 1: all objects created in the session; oracle after every call; then (often) commit + reload phase"""
     batch = []
     for h in range(nhist):
         schema = gen_schema(rng)
@@ -346,16 +376,44 @@ def memory_phase(ctx, rng, nhist, nops):
             w = World(schema)
         except Exception as e:
             ctx.count('schema-rejected:' + type(e).__name__); continue
+        for rel in schema['rels']: ctx.count('rel:' + rel['kind'] + ('+ckey' if rel.get('ckey') else ''))
         ops, real = [], []
+        violated = False
+        pks = None
         with db_session:
+            prev = []
             for _ in range(nops):
                 op, tag = gen_op(rng, w)
                 err = w.apply(op)
-                ops.append(op); real.append((err, w.snapshot(), tag))
+                snap = w.snapshot()
                 ctx.count('op:%s:%s' % (op['k'], err or 'ok'))
                 if tag: ctx.count('bad-operand:%s:%s' % (tag, err or 'ok'))
-            pks = None
-            if rng.random() < 0.6:
+                ctx.case({'schema': w.model_schema, 'op': op, 'i': len(ops)}, nontrivial=True, kind='call')
+                if err is not None and len(op.get('items', [])) > 1: ctx.count('multi-item-call-failed:%s:%s' % (op['k'], err))
+                # --- the property oracle on the real objects
+                bad = ends_disagree(w, snap)
+                if bad:
+                    p, key, q, why = bad[0]
+                    report_violation(ctx, schema, ops + [op], len(ops), classify(w, op, err, p, key, q, prev),
+                                     {'p': p, 'attr': list(key), 'q': q, 'why': why, 'outcome': err or 'ok'})
+                    ctx.count('oracle:ends-disagree')
+                    violated = True; break
+                if dangling(w, snap):
+                    dead_operand = tag in ('dead-value', 'dead-target') or any(t == 'dead-value' for _, _, t in real)
+                    ctx.count('live-object-references-deleted-object' + (':a-deleted-object-was-passed-as-value' if dead_operand else ''))
+                    if not dead_operand:
+                        ctx.violation('a live object references a deleted object although no deleted object was passed to any call',
+                                      {'schema': schema, 'ops': ops + [op]}, observed=dangling(w, snap)[0], key='dangling:%s/%s' % (op['k'], err or 'ok'))
+                        violated = True; break
+                if count_mismatch(w): ctx.count('observation-for-C10:SetData.count-differs-from-len')
+                if err is not None and err not in MODEL_ERRS:
+                    # a failure cause outside the model (key clash ...): the model's answer for any failing call is "nothing changed"
+                    ctx.count('failure-outside-model:%s:%s' % (err, 'state-unchanged' if norm_dump(snap) == norm_dump(prev) else 'STATE-CHANGED'))
+                    if norm_dump(snap) != norm_dump(prev): break
+                    op = dict(op, skip_model=True)
+                ops.append(op); real.append((err, snap, tag))
+                prev = snap
+            if not violated and rng.random() < 0.6:
                 try:
                     commit()
                     pks = [(o.id if w.alive(o) else None) for o in w.objs]
@@ -365,52 +423,38 @@ def memory_phase(ctx, rng, nhist, nops):
             else:
                 rollback()
         if pks is not None:
-            reload_phase(ctx, rng, w, ops, real, pks)
-        batch.append((schema, w, ops, real))
+            reload_phase(ctx, rng, w, [o for o in ops if not o.get('skip_model')], real, pks)
+        if not violated: batch.append((schema, w, ops, real))
         w.db.disconnect()
     if not ctx.driver.ok:
-        ctx.note('driver unavailable: the correspondence part is skipped, the oracle still runs')
-        outs = [None] * len(batch)
-    else:
-        outs = ctx.driver('C12', [{'op': 'run', 'schema': w.model_schema, 'ops': [model_op(o) for o in ops]} for _, w, ops, _ in batch])
+        ctx.note('driver unavailable: the correspondence part is skipped, the oracle still runs'); return
+    outs = ctx.driver('C12', [{'op': 'run', 'schema': w.model_schema, 'ops': [model_op(o) for o in ops if not o.get('skip_model')]} for _, w, ops, _ in batch])
     for (schema, w, ops, real), out in zip(batch, outs):
-        for rel in schema['rels']: ctx.count('rel:' + rel['kind'])
-        steps = out.get('steps') if out else None
-        if out is not None and steps is None:
+        steps = out.get('steps')
+        if steps is None:
             ctx.divergence('driver error', {'schema': schema, 'ops': ops}, model=out); continue
-        stop = False
+        k = -1
         for i, (err, snap, tag) in enumerate(real):
-            ctx.case({'schema': w.model_schema, 'op': ops[i], 'i': i}, nontrivial=True, kind='call')
-            # --- property oracle on the real objects
-            bad = ends_disagree(w, snap)
-            if bad:
-                p, key, q, why = bad[0]
-                report_violation(ctx, schema, ops, i, classify(w, ops[i], err, p, key, q), {'p': p, 'attr': list(key), 'q': q, 'why': why, 'outcome': err or 'ok'})
-                stop = True
-            d = dangling(w, snap)
-            if d:
-                ctx.count('live-object-references-deleted-object' + (':operand-was-deleted' if tag in ('dead-value', 'dead-target') or any(t == 'dead-value' for _, _, t in real[:i]) else ''))
-            # --- correspondence with the model
-            if steps is not None and not stop:
-                m = steps[i]
-                if m.get('dirty'): ctx.count('model:dirty-failure')
-                if not m.get('inv'): ctx.count('model:inv-false')
-                merr = m['err']
-                if merr in ('NoSuchObject', 'NoSuchAttr'):
-                    ctx.divergence('model rejected a call the engine generated', {'schema': schema, 'ops': ops[:i + 1]}, model=merr, impl=err); break
-                if (merr or None) != (err or None):
-                    if merr == 'RecursionError' or err == 'RecursionError' or err == 'AssertionError' and merr:
-                        ctx.count('cascade-cycle-outcome-differs'); break
-                    ctx.divergence('outcome of the call differs', {'schema': schema, 'ops': ops[:i + 1]}, model=merr, impl=err); break
-                md = norm_dump(m['objs']); rd = norm_dump(snap)
-                if len(md) != len(rd):
-                    ctx.divergence('number of objects differs', {'schema': schema, 'ops': ops[:i + 1]}, model=len(md), impl=len(rd)); break
-                diff = [j for j in range(len(md)) if md[j] != rd[j] and (md[j]['alive'] or rd[j]['alive'])]
-                if diff:
-                    ctx.divergence('relationship values of a live object differ', {'schema': schema, 'ops': ops[:i + 1]},
-                                   model=md[diff[0]], impl=rd[diff[0]]); break
-                if any(md[j] != rd[j] for j in range(len(md))): ctx.count('stale-values-of-deleted-object-differ')
-            if stop: break
+            if ops[i].get('skip_model'): continue
+            k += 1
+            m = steps[k]
+            hist = {'schema': schema, 'ops': ops[:i + 1]}
+            if not m.get('inv'): ctx.count('model:inv-false')
+            merr = m['err']
+            if merr in ('NoSuchObject', 'NoSuchAttr'):
+                ctx.divergence('model rejected a call the engine generated', hist, model=merr, impl=err); break
+            if (merr or None) != (err or None):
+                if 'RecursionError' in (merr, err):
+                    ctx.count('cascade-cycle-outcome-differs'); break
+                ctx.divergence('outcome of the call differs', hist, model=merr, impl=err); break
+            md = norm_dump(m['objs']); rd = norm_dump(snap)
+            if len(md) != len(rd):
+                ctx.divergence('number of objects differs', hist, model=len(md), impl=len(rd)); break
+            diff = [j for j in range(len(md)) if md[j] != rd[j] and (md[j]['alive'] or rd[j]['alive'])]
+            if diff:
+                ctx.divergence('relationship values of a live object differ', hist, model=md[diff[0]], impl=rd[diff[0]]); break
+            if any(md[j] != rd[j] for j in range(len(md))): ctx.count('stale-values-of-deleted-object-differ')
+            ctx.count('tie:calls-compared')
 
 
 # ---------------------------------------------------------------- reload phase (differential only)
@@ -511,7 +555,7 @@ def reload_phase(ctx, rng, w, ops, real, pks):
                     if bad:
                         p, key, q, why = bad[0]
                         ctx.violation('after a call on reloaded objects the two ends disagree', hist, observed={'p': p, 'attr': list(key), 'q': q, 'why': why, 'outcome': err or 'ok'},
-                                      key='reload-call-ends-disagree:' + classify(w, op, err, p, key, q))
+                                      key='reload-call-ends-disagree:' + classify(w, op, err, p, key, q, more[j - 1][2] if j else None))
                         break
                     if (m['err'] or None) != (err or None):
                         if 'RecursionError' in (m['err'], err): break
